@@ -176,8 +176,8 @@ def prop_case(case):
 
 
 @st.composite
-def c10_case(draw):
-    case = draw(simrun.sim_case(sims=simrun.SIMS, nmax=20))
+def c10_case(draw, sim=None):
+    case = draw(simrun.sim_case(sims=([sim] if sim else simrun.SIMS), nmax=20))
     sim = case['sim']
     if sim in ('basic_discrete_SIR', 'basic_discrete_SIS', 'percolation_based_discrete_SIR', 'discrete_SIR'):
         case['p'] = draw(st.sampled_from([1.0, 1.0, 0.0]))     # deterministic rule: both modes consume the same draws' outcomes
@@ -256,6 +256,7 @@ def run(ctx):
                 'an event at exactly tmin or a proper subset summary).')
     ctx.assumptions = ['continuous-time simulators consume the same draws in both return modes (asserted by C18)',
                        'discrete-time: tmax-tmin whole or infinite, deterministic rule']
-    run_hypothesis(ctx, 'modes', c10_case(), prop_case, 1200 if quick else 50000, rounds=5)
+    for sim in simrun.SIMS:
+        run_hypothesis(ctx, 'modes', c10_case(sim), prop_case, 100 if quick else 4000, rounds=3)
     from . import c12
     run_hypothesis(ctx, 'discrete-table', c12.table_case(), prop_discrete_table, 400 if quick else 10000)
